@@ -90,6 +90,22 @@ func badErrs(errs []*lexing.Error) string {
 
 func tm(string) interface{} { return new(interface{}) }
 
+// segments builds the input of a nest op: <hex> <count> pairs, repeated and concatenated.
+func segments(ws []string) ([]byte, bool) {
+	if len(ws)%2 != 0 {
+		return nil, false
+	}
+	var doc []byte
+	for i := 0; i < len(ws); i += 2 {
+		n, err := strconv.Atoi(ws[i+1])
+		if err != nil || n < 0 {
+			return nil, false
+		}
+		doc = append(doc, bytes.Repeat(hx.UnHex(ws[i]), n)...)
+	}
+	return doc, true
+}
+
 func execOp(line string) (res string) {
 	defer func() {
 		if r := recover(); r != nil {
@@ -101,8 +117,19 @@ func execOp(line string) (res string) {
 	if len(ws) < 2 {
 		return "bad-op"
 	}
-	in := hx.UnHex(ws[1])
-	switch ws[0] {
+	if ws[0] == "nest" {
+		// nest <entry> <hex> <count> ...: a large input given by its repeated segments
+		doc, ok := segments(ws[2:])
+		if !ok {
+			return "bad-op"
+		}
+		return execDoc(ws[1], doc, ws)
+	}
+	return execDoc(ws[0], hx.UnHex(ws[1]), ws)
+}
+
+func execDoc(kind string, in []byte, ws []string) string {
+	switch kind {
 	case "tojson":
 		out, errs := jsonx.ToJSON(in)
 		perrs, pulled := jsonx.VerifC08ToJSONParse(in)
@@ -412,7 +439,7 @@ func (r *runner) batch(ops []string) ([]string, string, string) {
 // watchdog so that machine load cannot produce a DIVERGE.
 func (r *runner) run(op string, confirm bool) (string, string) {
 	timeout := r.timeout
-	if strings.HasPrefix(op, "deep ") {
+	if strings.HasPrefix(op, "deep ") || strings.HasPrefix(op, "nest ") {
 		timeout = 30 * r.timeout // a megabyte of brackets: seconds of honest work before the stack limit
 		confirm = false
 	}
@@ -448,10 +475,11 @@ func (r *runner) close() {
 // ---------------------------------------------------------------------------
 
 type gen struct {
-	r    *hx.Rand
-	rep  *hx.Report
-	ops  []string
-	seen map[string]bool
+	r     *hx.Rand
+	rep   *hx.Report
+	ops   []string
+	seen  map[string]bool
+	limit int // nesting limit of the source as the model knows it (10000 when it has none)
 }
 
 func (g *gen) add(kind string, in []byte, class string) {
@@ -714,9 +742,59 @@ func (g *gen) generate(thorough bool) {
 		g.strtokCases(1500)
 		g.randomBytes(1500)
 	}
-	// deep nesting: oracle only (the model's statement about it is the nesting bound, see props.d/C08.json)
+	g.nestCases(thorough)
+	// a megabyte of brackets: oracle only (the model answers the same question at 10x the limit above)
 	g.ops = append(g.ops, "deep 5b 1000000 -")
 	g.rep.Count("gen:deep-nesting")
+}
+
+// nestCases: nestings around the limit (limit-1, limit, limit+1, 10x), closed
+// and unclosed, lists, objects and both alternating, for every entry point.
+func (g *gen) nestCases(thorough bool) {
+	l := g.limit
+	counts := []int{l - 1, l, l + 1, 10 * l}
+	if thorough {
+		counts = append(counts, 1, 2, l/2, l+2, 2*l, 10*l+1)
+	}
+	type shape struct{ open, mid, close string }
+	shapes := []shape{{"[", "", "]"}, {"{a:", "1", "}"}, {"[{a:", "1", "}]"}, {"[1,", "", "]"}}
+	add := func(kind string, segs ...string) {
+		op := "nest " + kind
+		for i := 0; i+1 < len(segs); i += 2 {
+			op += " " + hx.Hex([]byte(segs[i])) + " " + segs[i+1]
+		}
+		if g.seen[op] {
+			return
+		}
+		g.seen[op] = true
+		g.ops = append(g.ops, op)
+		g.rep.Count("gen:nesting-around-limit")
+		g.rep.Count("entry:" + kind)
+	}
+	for _, n := range counts {
+		if n < 1 {
+			continue
+		}
+		for _, sh := range shapes {
+			k := n
+			if len(sh.open) > 3 { // two levels per unit
+				k = (n + 1) / 2
+			}
+			ns := strconv.Itoa(k)
+			for _, kind := range []string{"tojson", "unmarshal", "series"} {
+				pre := ""
+				if kind == "series" {
+					pre = "t "
+				}
+				add(kind, pre, "1", sh.open, ns, sh.mid, "1", sh.close, ns) // closed
+				add(kind, pre, "1", sh.open, ns)                            // unclosed
+				if kind == "series" {
+					// the statement after a too-deep one is still parsed
+					add(kind, pre, "1", sh.open, ns, sh.mid, "1", sh.close, ns, "\nu 1\n", "1")
+				}
+			}
+		}
+	}
 }
 
 // ---------------------------------------------------------------------------
@@ -763,6 +841,15 @@ func classOf(res string) string {
 	return ws[0]
 }
 
+// runDriver runs the Lean driver with an unlimited stack: without a nesting
+// limit the model recurses as deep as the input nests.
+func runDriver(driver string, lines []string) ([]string, error) {
+	if driver == "" {
+		return nil, nil
+	}
+	return hx.RunDriver("/bin/sh", []string{"-c", "ulimit -s unlimited 2>/dev/null; exec \"$0\"", driver}, lines)
+}
+
 func main() {
 	isChild := flag.Bool("child", false, "run as the watched child: op lines on stdin, answers on stdout")
 	f := hx.ParseFlags()
@@ -774,7 +861,7 @@ func main() {
 	rep.Rule = "op = (entry point, input bytes); entry points: jsonx.ToJSON, jsonx.Unmarshal, Decoder.DecodeSeries, strtoken.Parse, " +
 		"the jsonx token stream; inputs: valid documents, all their prefixes, every single-token deletion/insertion, token soups " +
 		"(exhaustive small scopes + random), invalid UTF-8, unterminated strings/comments/brackets, with and without final newline, " +
-		"number-leaf boundaries, error-cap boundaries, random bytes; distinct = distinct op line; non-trivial = every op"
+		"number-leaf boundaries, error-cap boundaries, nestings around the depth limit (limit-1, limit, limit+1, 10x; lists, objects, mixed; closed and unclosed), random bytes; distinct = distinct op line; non-trivial = every op"
 	j := hx.NewJournal(f.Work)
 	run := &runner{timeout: 2 * time.Second, j: j}
 	defer run.close()
@@ -793,7 +880,13 @@ func main() {
 			ops = append(ops, c...)
 		}
 		ncorpus = len(ops)
-		g := &gen{r: hx.NewRand(f.Seed), rep: rep, seen: map[string]bool{}}
+		g := &gen{r: hx.NewRand(f.Seed), rep: rep, seen: map[string]bool{}, limit: 10000}
+		if fl, err := runDriver(f.Driver, []string{"facts"}); err == nil && len(fl) == 1 {
+			if v, err := strconv.Atoi(strings.TrimPrefix(fl[0], "depthLimit=")); err == nil && v >= 2 && v <= 1000000 {
+				g.limit = v
+			}
+			rep.Distribution["model_depth_limit"] = strings.TrimPrefix(fl[0], "depthLimit=")
+		}
 		for _, op := range ops {
 			g.seen[op] = true
 		}
@@ -808,6 +901,7 @@ func main() {
 	const hangBudget = 8 // per entry point: after that many hangs the entry point's remaining ops are skipped
 	skipped := 0
 	kindOf := func(op string) string { return strings.SplitN(op, " ", 2)[0] }
+	longOp := func(op string) bool { return strings.HasPrefix(op, "deep ") || strings.HasPrefix(op, "nest ") }
 	record := func(i int, res, detail string) {
 		op := ops[i]
 		kind := kindOf(op)
@@ -818,7 +912,7 @@ func main() {
 			rep.Fail(kind+"-hang", fmt.Sprintf("%s did not return on this input (%s)", kind, detail), []string{op})
 		case res == "panic" || strings.HasPrefix(res, "panic "):
 			key := kind + "-panic"
-			if kind == "deep" || strings.Contains(detail, "stack overflow") || strings.Contains(detail, "stack exceeds") {
+			if kind == "deep" || kind == "nest" || strings.Contains(detail, "stack overflow") || strings.Contains(detail, "stack exceeds") {
 				key = "deep-nesting-stack-overflow"
 			}
 			rep.Fail(key, fmt.Sprintf("%s panicked or killed the process on this input: %s %s", kind, res, detail), []string{op})
@@ -843,7 +937,7 @@ func main() {
 			i++
 			continue
 		}
-		if kind == "deep" {
+		if longOp(ops[i]) {
 			res, detail := run.run(ops[i], false)
 			record(i, res, detail)
 			i++
@@ -855,7 +949,7 @@ func main() {
 		var window []string
 		for jn < len(ops) && len(window) < 4096 {
 			k := kindOf(ops[jn])
-			if k == "deep" {
+			if longOp(ops[jn]) {
 				break
 			}
 			if jn > i {
@@ -920,7 +1014,7 @@ func main() {
 		mops = append(mops, op)
 		midx = append(midx, i)
 	}
-	model, err := hx.RunDriver(f.Driver, nil, mops)
+	model, err := runDriver(f.Driver, mops)
 	if err != nil {
 		rep.Note("driver failed: %v", err)
 		rep.ModelAvailable = false
